@@ -95,7 +95,7 @@ static int mh_stream(int kind, int f, int seed_i, const size_t *pl, int np, int 
 	o_d1 = vk_place(&s_dig, 4 * dwords, place == VK_START ? VK_START : VK_END, 1, 0); vk_canary_fill(&s_dig); memset(s_dig.rw + o_d1, prefill, 4 * dwords);
 	if (kind == 2) { o_d2 = vk_place(&s_dig2, 16, place == VK_START ? VK_START : VK_END, 1, 0); vk_canary_fill(&s_dig2); memset(s_dig2.rw + o_d2, prefill, 16); }
 	vk_call_poison = poison;
-	int faulted = 0; const char *cur = n_init;
+	int faulted = 0; const char *volatile cur = n_init;
 	if (place == VK_MID) memcpy(s_in.rw + s_in.size - tot, pool, tot);
 	vk_alarm(5000);
 	if (VK_TRY()) {
@@ -421,7 +421,7 @@ static int gcm_stream(int f, int ks, int dec, int nt, const size_t *pl, int np, 
 	const uint8_t *in;
 	if (inplace) { memcpy(out, src, tot); in = out; }
 	else { size_t o_in = vk_place(&s_in, tot, place == VK_START ? VK_START : VK_END, al, 0); memcpy(s_in.rw + o_in, src, tot); in = s_in.ro + o_in; }
-	int faulted = 0; const char *cur = n_init;
+	int faulted = 0; const char *volatile cur = n_init;
 	vk_alarm(5000);
 	if (VK_TRY()) {
 		VCALLN(f_init, n_init, AP(kd), AP(ctx), AP(p_iv), AP(p_aad), A64(aad));
